@@ -210,21 +210,24 @@ Qed.
 
 Lemma sum_guard_exact l : sum_guard l = true -> esa_sum l = esa_sum_exact l /\ exists s m, esa_sum_exact l = Some (s, m).
 Proof.
-  unfold sum_guard, esa_sum, esa_sum_exact. destruct (min_list (map snd l)) as [m|] eqn:Hm; [|discriminate].
+  unfold sum_guard, esa_sum, esa_sum_exact. destruct (sum_min l) as [m|] eqn:Hm; [|discriminate].
   rewrite andb_true_iff, forallb_forall, Z.ltb_lt. intros [Hk Hs]. split; [|eauto].
   f_equal. f_equal.
-  assert (Hge : forall x, In x l -> 0 <= snd x - m < 31).
-  { intros x Hx. specialize (Hk x Hx). apply Z.ltb_lt in Hk. pose proof (min_list_le _ _ Hm (snd x) (in_map snd _ _ Hx)). lia. }
-  assert (Hmap : map (align32 m) l = map (align_exact m) l /\ zsum (map norm1 (map (align_exact m) l)) <= zsum (map (fun x => norm1 (fst x) * 2 ^ (snd x - m)) l)).
+  assert (Hge : forall x, In x l -> q4_is_zero (fst x) = false -> 0 <= snd x - m < 31).
+  { intros x Hx Hz. specialize (Hk x Hx). rewrite Hz in Hk. cbn [orb] in Hk. apply Z.ltb_lt in Hk.
+    pose proof (sum_min_le _ _ Hm x Hx Hz). lia. }
+  assert (Hmap : map (align32z m) l = map (align_exactz m) l /\ zsum (map norm1 (map (align_exactz m) l)) <= zsum (map (fun x => norm1 (fst x) * 2 ^ (snd x - m)) l)).
   { clear Hm Hk. induction l as [|x l IH]; [split; [reflexivity | cbn; lia]|].
     cbn [map] in *. rewrite !zsum_cons in *.
     assert (Hnn : forall l', 0 <= zsum (map (fun x0 : q4 * Z => norm1 (fst x0) * 2 ^ (snd x0 - m)) l')).
     { intro l'. induction l' as [|y l' IHl']; cbn [map]; rewrite ?zsum_cons, ?zsum_nil; [lia|].
       pose proof (norm1_nonneg (fst y)). pose proof (Z.pow_nonneg 2 (snd y - m)). nia. }
     destruct IH as [IH1 IH2]; [pose proof (Hnn l); pose proof (norm1_nonneg (fst x)); pose proof (Z.pow_nonneg 2 (snd x - m)); nia | intros y Hy; apply Hge; right; exact Hy |].
-    split.
-    - f_equal; [|exact IH1]. apply align32_exact; [apply Hge; left; reflexivity|]. pose proof (Hnn l). lia.
-    - unfold align_exact at 1. rewrite norm1_scale, Z.abs_eq by (apply Z.pow_nonneg; lia). nia. }
+    unfold align32z at 1, align_exactz at 1 3. destruct (q4_is_zero (fst x)) eqn:Hz.
+    - split; [f_equal; exact IH1|]. cbn [q4_zero norm1 Z.abs]. pose proof (norm1_nonneg (fst x)). pose proof (Z.pow_nonneg 2 (snd x - m)). nia.
+    - split.
+      + f_equal; [|exact IH1]. apply align32_exact; [apply Hge; [left; reflexivity | exact Hz]|]. pose proof (Hnn l). lia.
+      + unfold align_exact at 1. rewrite norm1_scale, Z.abs_eq by (apply Z.pow_nonneg; lia). nia. }
   destruct Hmap as [Hmap Hle]. rewrite Hmap. apply fold_add32_exact. cbn [q4_zero norm1 Z.abs]. lia.
 Qed.
 
@@ -453,8 +456,11 @@ Section RingSem.
     rewrite <- IH by (intros y Hy; apply Hmin; right; exact Hy).
     specialize (Hmin x (or_introl eq_refl)).
     unfold Evaluate.esa_value, den4.
-    replace (pow2 (snd x)) with (pow2 (m + (snd x - m))) by (f_equal; lia).
-    rewrite pow2_add, (pow2_ofZ (snd x - m)) by lia. ring.
+    destruct (q4_is_zero (fst x)) eqn:Hz.
+    - rewrite (q4_is_zero_eq _ Hz), (den_zero R rO rI radd rmul rsub ropp Rth). ring.
+    - specialize (Hmin eq_refl).
+      replace (pow2 (snd x)) with (pow2 (m + (snd x - m))) by (f_equal; lia).
+      rewrite pow2_add, (pow2_ofZ (snd x - m)) by lia. ring.
   Qed.
 
   (* ---------------------------------------------------------------- masking and padding *)
